@@ -773,6 +773,8 @@ func main() {
 		}
 	}
 
+	handlerHistories(r)
+
 	g4lib.ReportRaces(r, nil)
 	hits := verifhook.Counters()
 	for _, p := range []string{"lock.try.loaded", "lock.try.acquired", "lock.unlock.loaded", "lock.releaseall.loaded"} {
